@@ -50,6 +50,13 @@ def run(ctx, progs):
         destroy1(ctx, prog, cfg)
         drn1_de(ctx, prog, cfg)
         dtor_table(ctx, prog, cfg)
+        # while Drain::drop runs destructors the header must claim nothing (size := 0 when the Drain was built: DRN1 a-c,f),
+        # and what it hands to the destructors is the un-yielded part only (views bounded by iter, never by range): an
+        # element whose destructor panics there, or one already yielded, is never destroyed again
+        from .. import drainrules
+
+        drainrules.drn1_abcf(ctx, prog, cfg)
+        drainrules.drnview1(ctx, prog, cfg, "DRN1")
 
 
 def shrink1(ctx, prog, cfg, rule="SHRINK1"):
@@ -327,7 +334,14 @@ def dtor_table(ctx, prog, cfg):
                       % (short, "dropping a local that is already out of the buffer" if allowed == {"drop"} else "/".join(sorted(allowed)),
                          "; ".join(d for _, _, d in bad)),
                       "site kinds %s within the reviewed %s" % (sorted({k for _, k, _ in ds}), sorted(allowed)), cfg)
-    missing = [s for s in tables.DESTROYS_T_REQUIRED if s not in found and table_applies(s, prog)]
+    def through_guard(short):
+        # the same destruction spelled as a scope guard: the local of a reviewed guard type goes out of scope on a normal path
+        # (a `drop` terminator resolved to that guard's Drop impl) instead of being handed to mem::drop
+        g = prog.fns[short]
+        return any(g.term(b)["k"] == "drop" and not g.is_cleanup(b) and any(i in table for i in g.term(b).get("drop_impls", []))
+                   for b in g.reachable(False))
+
+    missing = [s for s in tables.DESTROYS_T_REQUIRED if s not in found and table_applies(s, prog) and not through_guard(s)]
     ctx.check(not missing, "DTOR-TABLE", "*", "table entries present", "?",
               "reviewed destroying functions no longer found: %s" % missing,
               "%d table entries found" % len(table), cfg, nontrivial=False)
